@@ -2,7 +2,7 @@ INIT Init
 NEXT Next
 CONSTANTS MaxN = 3
           MaxSlots = 3
-          Counts = {0, 1, 4}
+          Counts = {0, 4}
           NAnchors = 2
           Depth = 2
 INVARIANT SpecSane
